@@ -1,6 +1,8 @@
 """C04 — a reported success identifies exactly where and what was written."""
 import json
 
+from decgen_tie import run_decgen
+
 
 def run(c):
     c.rule = ("three families of cases, each executed on the implementation and re-evaluated on the Coq model: "
@@ -43,6 +45,8 @@ def run(c):
     if not c.coq_make(dirs=["C04"]):
         return
     c.coq_properties()
+    # the decision slices of topicProducer.partitionMessage, regenerated from the source (c04_tie_partition_pick/_source)
+    run_decgen(c, "C17")
     b = c.go_build("c04corr")
     if not b:
         return
